@@ -7,12 +7,15 @@ Progs == ndJsonDeserialize("progs.ndjson")
 
 SetToSeq(S) == SetToSortedSeq(S)
 
+NotRetain(iv) == iv.kind # "retain"
 Out(p) ==
-    LET r == Run(p) IN
+    LET r == Run(p)
+        jobs == SelectSeq(r.inv, NotRetain)
+    IN
     [name |-> p.name,
-     inv |-> [i \in DOMAIN r.inv |->
-                [r.inv[i] EXCEPT !.deps = SetToSeq(r.inv[i].deps)]],
-     outs |-> VObj(r.outs), weak |-> r.wk]
+     inv |-> [i \in DOMAIN jobs |->
+                [jobs[i] EXCEPT !.deps = SetToSeq(jobs[i].deps)]],
+     outs |-> VObj(r.outs), weak |-> r.wk, files |-> FileFacts(p, r)]
 
 ASSUME ndJsonSerialize("sem_out.ndjson", [i \in DOMAIN Progs |-> Out(Progs[i])])
 ===========================================================================
